@@ -208,7 +208,7 @@ func c19Gen(r *Run, rng *gen.Rng, corpus []string) *c19Inv {
 		for n := rng.Range(1, 2); n > 0; n-- {
 			c := rng.Pick(cands)
 			p := path.Join(inDir, c)
-			taken := c == base || c == "" || c == "." || inDir == outAbs
+			taken := c == base || c == "" || c == "." || inDir == outAbs || len(c) > 255
 			for _, f := range files {
 				if f.Path == p || strings.HasPrefix(f.Path, p+"/") {
 					taken = true
